@@ -25,6 +25,10 @@ from . import props as P
 LOCK = os.path.join(VERIF_ROOT, "obligations.lock.json")
 KNOWN = os.path.join(VERIF_ROOT, "known_findings.json")
 EVID = os.path.join(VERIF_ROOT, "evidence")
+if os.path.realpath(os.environ.get("VERIF_REPO", "/repo")) != "/repo":
+    # developer runs against a scratch copy of the repository (seeded changes, mutants): keep
+    # the committed evidence, which must describe /repo itself, untouched
+    EVID = os.path.join(VERIF_ROOT, "scratch", "evidence-alt")
 REPLAYS = os.path.join(VERIF_ROOT, "replays")
 
 SEMANTICS = [
